@@ -35,8 +35,16 @@ func init() {
 		Build: func(c *Ctx) {
 			for _, cfg := range c.Configs() {
 				c.e9Bytes(cfg)
+				// the field-level mechanisms C05 is anchored in: canonical serialisation and the sign predicate
+				c.ruleFieldLayouts(cfg)
+				c.ruleFieldPredicates(cfg)
+				if res := c.limbInvariant(cfg); res != nil && len(res.problems) == 0 {
+					c.ruleWideAndReduce(cfg, res.box)
+				}
 				if a := c.Eff(cfg); a != nil {
 					c.addAll(keep(a.RFresh(), func(o report.Obligation) bool { return keyHasFunc(o, nameSet([]string{"(*Point).Bytes"})) }))
+					// no hidden state: the encoder reads the coordinates and writes nothing of the point
+					c.addAll(keep(a.RReadOnly(), func(o report.Obligation) bool { return keyHasFunc(o, nameSet([]string{"(*Point).Bytes"})) }))
 				}
 				if g := c.Guards(cfg); g != nil {
 					c.addAll(keep(g.GInit(), func(o report.Obligation) bool { return keyHasFunc(o, nameSet([]string{"(*Point).Bytes"})) }))
@@ -52,6 +60,7 @@ func init() {
 		Build: func(c *Ctx) {
 			for _, cfg := range c.Configs() {
 				c.e9Equal(cfg)
+				c.ruleFieldPredicates(cfg) // field equality on fully reduced encodings (anchor field/fe.go Equal)
 				if g := c.Guards(cfg); g != nil {
 					c.addAll(keep(g.GInit(), func(o report.Obligation) bool { return keyHasFunc(o, nameSet([]string{"(*Point).Equal"})) }))
 				}
@@ -95,6 +104,11 @@ func init() {
 				c.e9SetBytes(cfg)
 				c.e9ConstD(cfg)
 				c.ruleLengthSweep(cfg, "(*Point).SetBytes", 32, 80)
+				// the field-level mechanisms C04 is anchored in: y = low 255 bits, SqrtRatio recipe, even root
+				c.ruleFieldLayouts(cfg)
+				c.e9SqrtRatio(cfg)
+				c.e9AbsoluteNegate(cfg)
+				c.ruleFieldPredicates(cfg)
 			}
 		},
 	})
@@ -200,5 +214,41 @@ func init() {
 				}
 			}
 		},
+	})
+}
+
+func init() {
+	register(&Prop{
+		ID: "C10", Level: "other", Technique: "abstract interpretation in a bit-provenance domain (exact layouts of SetBytes/bytes, which bits feed Equal and IsNegative), bit-level evaluation of the Select/Swap mask arithmetic, polynomial congruence of SetWideBytes, structural form of reduce",
+		Explanation: "Decides: SetBytes places input bits [51k,51k+51) in limb k and ignores bit 255 (so 2^255−19…2^255−1 decode to 0…18 without a range check); bytes writes bit (n mod 51) of reduced limb ⌊n/51⌋ to output bit n, pieces disjoint, reduce applied once on a copy; Equal is ConstantTimeCompare over the two complete canonical encodings and IsNegative is bit 0 of the canonical encoding (limbs read only through Bytes — so representation cannot matter); Select/Swap with cond ∈ {0,1} choose/exchange limb for limb; SetWideBytes ≡ the 512-bit integer mod p; reduce masks every limb to 51 bits and changes the value only by 19·(c − final carry); failed setters are atomic and wrong lengths are rejected without reading data. NOT decided: that reduce's c equals the final carry (the nested-floor identity), i.e. that the encoded integer is the representative below p — one residue class argument beyond these domains.",
+		TrustedBase: trustedLimb,
+		Floors:      []report.Floor{{Rule: "E8-LAYOUT", Min: 2 * 2}, {Rule: "E8-PRED", Min: 2 * 2}, {Rule: "E6-MUX", Min: 2 * 4}, {Rule: "E5-CONG", Min: 2}, {Rule: "REDUCE-FORM", Min: 2}},
+		Build: func(c *Ctx) {
+			for _, cfg := range c.Configs() {
+				c.ruleFieldLayouts(cfg)
+				c.ruleFieldPredicates(cfg)
+				res := c.limbInvariant(cfg)
+				if res != nil {
+					for _, pr := range res.problems {
+						c.Set.Problem("%s", pr)
+					}
+					if len(res.problems) == 0 {
+						c.ruleSelectSwap(cfg, res.box)
+						c.ruleWideAndReduce(cfg, res.box)
+					}
+				}
+				names := []string{"field.(*Element).SetBytes", "field.(*Element).SetWideBytes"}
+				c.ruleAccept(cfg, names)
+				c.ruleSetterAtomic(cfg, nameSet(names))
+				c.ruleLengthSweep(cfg, "field.(*Element).SetBytes", 32, 80)
+				c.ruleLengthSweep(cfg, "field.(*Element).SetWideBytes", 64, 80)
+				if a := c.Eff(cfg); a != nil {
+					all := nameSet([]string{"field.(*Element).SetBytes", "field.(*Element).SetWideBytes", "field.(*Element).Bytes", "field.(*Element).Equal", "field.(*Element).IsNegative", "field.(*Element).Select", "field.(*Element).Swap"})
+					c.addAll(keep(a.RReadOnly(), func(o report.Obligation) bool { return keyHasFunc(o, all) }))
+					c.addAll(keep(a.RFresh(), func(o report.Obligation) bool { return keyHasFunc(o, all) }))
+				}
+			}
+		},
+		Exceptions: []report.Exception{swapExceptions[1], swapRecvRO},
 	})
 }
